@@ -217,6 +217,21 @@ pub fn nonlinear_impl_header(items: &str) -> bool {
     false
 }
 
+/// `+mixed-cycle` tag: the program (parsed by the fragment parser; the unit type `()` is read as a struct) has a
+/// cycle through inductive and coinductive traits
+pub fn mixed_cycle_world(world: &World) -> bool {
+    let parsed = crate::wgen::parse_world(world).ok().or_else(|| {
+        let mut w = world.clone();
+        for it in w.items.iter_mut() {
+            *it = it.replace("()", "Unit__");
+        }
+        w.items.insert(0, "struct Unit__ { }".to_string());
+        w.goals = vec![];
+        crate::wgen::parse_world(&w).ok()
+    });
+    parsed.map(|(p, _)| crate::wgen::mixed_cycle(&p)).unwrap_or(false)
+}
+
 pub fn static_tags(world: &World, goal: usize) -> String {
     let mut t = String::new();
     if nonlinear_impl_header(&world.items.join("\n")) {
